@@ -47,6 +47,10 @@ var (
 	errVerifTmp   = &kernel.Error{Module: "verif", Message: "scripted temporary-mapping failure"}
 )
 
+// the package's flag constants by name, in x86-64 bit order (index = trace token of `mapflag`)
+var vmNamedFlags = []PageTableEntryFlag{FlagPresent, FlagRW, FlagUserAccessible, FlagWriteThroughCaching, FlagDoNotCache,
+	FlagAccessed, FlagDirty, FlagHugePage, FlagGlobal, FlagCopyOnWrite, FlagNoExecute}
+
 type vmFault struct{ what string }
 
 type vmachine struct {
@@ -65,6 +69,9 @@ type vmachine struct {
 
 	pdts     [4]PageDirectoryTable
 	sections []vmSection
+	useMB    bool     // sections come from a real multiboot2 info block through multiboot.VisitElfSections
+	mbBuf    []uint64 // the info block (kept alive here)
+	mbNames  []byte
 	mu       []byte // host buffer for the kernel.Memset / kernel.Memcopy tie (guard bytes around the target)
 	lastDump string
 	lastCode int // result code of the last op (-1: aborted)
@@ -210,6 +217,10 @@ func (m *vmachine) install() func() {
 	translateFn = Translate
 	earlyReserveRegionFn = EarlyReserveRegion
 	visitElfSectionsFn = func(v multiboot.ElfSectionVisitor) {
+		if m.useMB {
+			multiboot.VisitElfSections(v)
+			return
+		}
 		for _, s := range m.sections {
 			v("sec", multiboot.ElfSectionFlag(s.flags), uintptr(s.addr), s.size)
 		}
@@ -266,6 +277,7 @@ func (m *vmachine) reset(root uint64) {
 	m.tmpOutstanding = false
 	m.pdts = [4]PageDirectoryTable{}
 	m.sections = nil
+	m.useMB = false
 	m.lastDump = ""
 	earlyReserveLastUsed = tempMappingAddr
 	ReservedZeroedFrame, protectReservedZeroedPage = 0, false
@@ -468,6 +480,54 @@ func (m *vmachine) memUtil(name string, op []uint64) string {
 	return fmt.Sprintf("%d %d %d %d", h, nd, first, last)
 }
 
+// buildMultiboot writes a multiboot2 info block whose only tag is the ELF-sections tag (type 9) laid out
+// as kernel/multiboot reads it: numSections u16 @0, sectionSize u32 @4, strtabSectionIndex u32 @8,
+// then 64-byte elfSection64 entries; the last entry is the string table (size 0, address = the names).
+// The raw 64-bit flags word of section i is op[3i] (high bits are dropped by the visitor's conversion).
+func (m *vmachine) buildMultiboot(secs []vmSection, op []uint64) {
+	n := len(secs)
+	m.mbNames = m.mbNames[:0]
+	nameOff := make([]uint32, n)
+	m.mbNames = append(m.mbNames, 0)
+	for i := range secs {
+		nameOff[i] = uint32(len(m.mbNames))
+		m.mbNames = append(m.mbNames, []byte(fmt.Sprintf(".sec%d", i))...)
+		m.mbNames = append(m.mbNames, 0)
+	}
+	tagSize := 8 + 12 + 64*(n+1)
+	total := 8 + (tagSize+7)&^7 + 8
+	m.mbBuf = make([]uint64, (total+7)/8+1)
+	base := uintptr(unsafe.Pointer(&m.mbBuf[0]))
+	put32 := func(off int, v uint32) { *(*uint32)(unsafe.Pointer(base + uintptr(off))) = v }
+	put64 := func(off int, v uint64) { *(*uint64)(unsafe.Pointer(base + uintptr(off))) = v }
+	put32(0, uint32(total))
+	put32(8, 9)
+	put32(12, uint32(tagSize))
+	*(*uint16)(unsafe.Pointer(base + 16)) = uint16(n + 1)
+	put32(20, 64)
+	put32(24, uint32(n))
+	for i := 0; i <= n; i++ {
+		e := 28 + 64*i
+		if i == n { // string table
+			put32(e, 0)
+			put32(e+4, 3)
+			put64(e+16, uint64(uintptr(unsafe.Pointer(&m.mbNames[0]))))
+			put64(e+32, 0)
+			continue
+		}
+		put32(e, nameOff[i])
+		put32(e+4, 1)
+		put64(e+8, op[3*i])
+		put64(e+16, secs[i].addr)
+		put64(e+24, 0x1000*uint64(i))
+		put64(e+32, secs[i].size)
+	}
+	end := 8 + (tagSize+7)&^7
+	put32(end, 0)
+	put32(end+4, 8)
+	multiboot.SetInfoPtr(base)
+}
+
 // exec runs one op (tokens as printed in the trace) against the real code.
 func (m *vmachine) exec(op []uint64, name string) (string, bool) {
 	switch name {
@@ -489,6 +549,10 @@ func (m *vmachine) exec(op []uint64, name string) (string, bool) {
 	case "map":
 		return m.run(func() (int, uint64) {
 			return vmErrCode(Map(mm.Page(op[0]), mm.Frame(op[1]), PageTableEntryFlag(op[2]))), 0
+		})
+	case "mapflag": // Map with Present | the package's NAMED flag constant number op[2]
+		return m.run(func() (int, uint64) {
+			return vmErrCode(Map(mm.Page(op[0]), mm.Frame(op[1]), FlagPresent|vmNamedFlags[op[2]])), 0
 		})
 	case "unmap":
 		return m.run(func() (int, uint64) { return vmErrCode(Unmap(mm.Page(op[0]))), 0 })
@@ -559,10 +623,19 @@ func (m *vmachine) exec(op []uint64, name string) (string, bool) {
 		})
 	// ---- C05
 	case "secs":
+		m.useMB = false
 		m.sections = nil
 		for i := 0; i+2 < len(op); i += 3 {
 			m.sections = append(m.sections, vmSection{uint32(op[i]), op[i+1], op[i+2]})
 		}
+		return m.run(func() (int, uint64) { return 0, 0 })
+	case "secsmb": // the same section table, encoded as the ELF-sections tag of a multiboot2 info block
+		var secs []vmSection
+		for i := 0; i+2 < len(op); i += 3 {
+			secs = append(secs, vmSection{uint32(op[i]), op[i+1], op[i+2]})
+		}
+		m.buildMultiboot(secs, op)
+		m.useMB = true
 		return m.run(func() (int, uint64) { return 0, 0 })
 	case "reserve":
 		return m.run(func() (int, uint64) {
